@@ -557,7 +557,7 @@ type llStats struct {
 	multiWindow, updateLast, unknownName                        bool
 	tightenedAny, tightenedBig                                  bool
 	neighbour1, neighbourGranule, neighbour64, neighbourFar     bool
-	live1024, live2048                                          bool
+	live1024, live2048, live4096                                bool
 	emptiedRetained, neverCovered, negative, zero               bool
 	expiredAtLastRefreshes, outlierFirstPeriod, outlierBoundary bool
 	refreshes, judged, slots                                    int
@@ -624,6 +624,7 @@ func (s *llStats) labels() []string {
 	add(s.neighbourFar, "tightened:next-live-slot-farther")
 	add(s.live1024, "window-held>=1024-non-empty-slots")
 	add(s.live2048, "window-held>=2048-non-empty-slots")
+	add(s.live4096, "window-held>=4096-non-empty-slots")
 	add(s.emptiedRetained, "leaf-of-emptied-window-retained(not-judged)")
 	add(s.negative, "negative-latency")
 	add(s.zero, "zero-latency")
@@ -923,6 +924,9 @@ func runLatLong(sc *LatLong) (st *llStats, err error) {
 			}
 			if live >= 2048 {
 				st.live2048 = true
+			}
+			if live >= 4096 {
+				st.live4096 = true
 			}
 			if !exportedFor[wi] {
 				continue
